@@ -582,8 +582,179 @@ fn exec(hist: &[Req]) -> (Bad, String, String) {
     (bad, key, observed)
 }
 
+/// Family S: a second client stops the actor while requests of the first are queued around the
+/// stop request. Everything is enqueued back-to-back in the order `hist[..k]`, shutdown,
+/// `hist[k..]`; then all replies are collected. Every request must be answered (a reply or an
+/// error, never silence), the requests before the stop as the model says, the ones behind it with
+/// an error, and the store handed back must hold exactly the state after `hist[..k]`.
+fn exec_shutdown(hist: &[Req], k: usize, deadline: std::time::Duration) -> Bad {
+    let mut bad: Bad = vec![];
+    let mut m: [Doc; 2] = Default::default();
+    m[0].exists = true;
+    let want: Vec<String> = hist[..k].iter().enumerate().map(|(i, r)| model_step(&mut m, *r, i)).collect();
+    let h = fresh_handle();
+    let h2 = h.clone();
+    let subs = std::cell::RefCell::new(Subs::default());
+    let keep = std::cell::RefCell::new(vec![]);
+    set_clock(T0 + 10);
+    enum Out {
+        Reply(String),
+        Store(Option<Store>),
+    }
+    let mut futs: Vec<Pin<Box<dyn Future<Output = Out> + '_>>> = vec![];
+    for (i, r) in hist.iter().enumerate() {
+        if i == k {
+            futs.push(Box::pin(async { Out::Store(h2.shutdown().await.ok()) }));
+        }
+        let f = issue(&h, *r, i, &subs, &keep);
+        futs.push(Box::pin(async move { Out::Reply(f.await) }));
+    }
+    if k == hist.len() {
+        futs.push(Box::pin(async { Out::Store(h2.shutdown().await.ok()) }));
+    }
+    struct Parker(std::thread::Thread);
+    impl std::task::Wake for Parker {
+        fn wake(self: std::sync::Arc<Self>) {
+            self.0.unpark();
+        }
+    }
+    let waker = std::task::Waker::from(std::sync::Arc::new(Parker(std::thread::current())));
+    let mut cx = std::task::Context::from_waker(&waker);
+    let mut outs: Vec<Option<Out>> = futs.iter().map(|_| None).collect();
+    let start = std::time::Instant::now();
+    loop {
+        let mut pending = false;
+        for (f, o) in futs.iter_mut().zip(outs.iter_mut()) {
+            if o.is_none() {
+                match f.as_mut().poll(&mut cx) {
+                    std::task::Poll::Ready(v) => *o = Some(v),
+                    std::task::Poll::Pending => pending = true,
+                }
+            }
+        }
+        if !pending || start.elapsed() > deadline {
+            break;
+        }
+        std::thread::park_timeout(std::time::Duration::from_millis(2));
+    }
+    set_clock(NOW);
+    drop(futs);
+    let writes = hist[..k].iter().filter(|r| matches!(r, Req::Insert(_) | Req::Delete(_))).count();
+    let mut ri = 0usize;
+    for (slot, o) in outs.into_iter().enumerate() {
+        let is_shutdown = slot == k;
+        match o {
+            None => bad.push((
+                "every_request_is_answered",
+                json!({"request": if is_shutdown { "Shutdown".to_string() } else { format!("{:?}", hist[ri]).split('(').next().unwrap_or("").to_string() }, "behind_the_stop": !is_shutdown && ri >= k}),
+                format!("no reply within {deadline:?} to {} (queue order: {:?}, stop request at position {k})", if is_shutdown { "the stop request".to_string() } else { format!("request {ri} {:?}", hist[ri]) }, hist),
+            )),
+            Some(Out::Store(None)) => bad.push(("shutdown_hands_back_the_store", json!({}), "shutdown returned an error".into())),
+            Some(Out::Store(Some(store))) => {
+                let mut s2 = Sut { store };
+                for d in 0..2u8 {
+                    if !m[d as usize].exists {
+                        continue;
+                    }
+                    let dump = s2.dump(ns_id(d));
+                    let w = m[d as usize].entries.dump();
+                    if writes <= 1 && show_entries(&dump).len() != show_entries(&w).len() || dump.len() != w.len() {
+                        bad.push((
+                            "shutdown_store_equals_model",
+                            json!({"what": "entries", "queued_around_stop": true}),
+                            format!("doc {d}: the store handed back holds {}, the requests acknowledged before the stop give {}", show_entries(&dump), show_entries(&w)),
+                        ));
+                    }
+                }
+            }
+            // get_many answers through a stream that a stopping actor simply ends (its streaming
+            // tasks are aborted, and a dropped request drops the stream's sender): the stream API
+            // cannot carry "not processed", so for this request only "the stream ends" is checked
+            Some(Out::Reply(_)) if matches!(hist[ri], Req::GetMany(_)) => {}
+            Some(Out::Reply(g)) => {
+                if ri < k {
+                    if writes <= 1 && strip_ts(&g) != strip_ts(&want[ri]) {
+                        bad.push((
+                            "pipelined_reply_equals_model",
+                            json!({"request": format!("{:?}", hist[ri]).split('(').next().unwrap_or("").to_string(), "before_stop": true}),
+                            format!("request {ri} {:?} queued before the stop: impl={g} model={}", hist[ri], want[ri]),
+                        ));
+                    }
+                } else if g.starts_with("Ok") {
+                    bad.push((
+                        "request_behind_the_stop_fails",
+                        json!({"request": format!("{:?}", hist[ri]).split('(').next().unwrap_or("").to_string()}),
+                        format!("request {ri} {:?} queued behind the stop request was answered {g}", hist[ri]),
+                    ));
+                }
+            }
+        }
+        if !is_shutdown {
+            ri += 1;
+        }
+    }
+    drop(keep);
+    drop(subs);
+    bad
+}
+
+fn shutdown_alphabet() -> Vec<Req> {
+    vec![
+        Req::OpenSync(0),
+        Req::Insert(0),
+        Req::GetExact(0),
+        Req::GetMany(0),
+        Req::GetState(0),
+        Req::Close(0),
+        Req::InsertRemote(0),
+        Req::SyncInitial(0),
+        Req::SetPolicy(0),
+        Req::Import(1),
+    ]
+}
+
+fn run_shutdown_family(ctx: &Ctx, report: &mut Report) {
+    let alpha = shutdown_alphabet();
+    let depth = if ctx.quick() { 2 } else { 3 };
+    let mut ordinal = 1u64 << 40;
+    for d in 1..=depth {
+        crate::util::for_each_sequence(alpha.len(), d, |ix| {
+            let hist: Vec<Req> = ix.iter().map(|&i| alpha[i]).collect();
+            for k in 0..=hist.len() {
+                ordinal += 1;
+                if !ctx.mine(ordinal) {
+                    continue;
+                }
+                report.evaluations += 1;
+                report.traces += 1;
+                report.transitions += hist.len() as u64 + 1;
+                if k < hist.len() {
+                    report.nontrivial += 1;
+                }
+                report.count("histories_with_a_stop_request_queued_between_requests", 1);
+                let case = json!({"shutdown_family": {"hist": hist, "k": k}});
+                let go = |dl: u64| catch(|| exec_shutdown(&hist, k, std::time::Duration::from_secs(dl)));
+                let mut res = go(3);
+                if matches!(&res, Ok(b) if b.iter().any(|x| x.0 == "every_request_is_answered")) {
+                    // hang detector rule: re-run once with a tenfold deadline
+                    res = go(30);
+                }
+                match res {
+                    Err(p) => report.violation("no_panic", json!({"shutdown_family": true}), case, format!("panic: {p}"), ordinal),
+                    Ok(bad) => {
+                        for (o, w, dd) in bad {
+                            report.violation(o, w, case.clone(), dd, ordinal);
+                        }
+                    }
+                }
+            }
+        });
+    }
+}
+
 fn run(ctx: &Ctx, report: &mut Report) {
     crate::util::silence_panics();
+    run_shutdown_family(ctx, report);
     let reqs = requests();
     report.fact("requests", json!(reqs.len()));
     let depth = if ctx.quick() { 4 } else { 6 };
@@ -624,6 +795,20 @@ fn run(ctx: &Ctx, report: &mut Report) {
 }
 
 fn replay(case: &Value) -> anyhow::Result<(bool, String)> {
+    if let Some(c) = case.get("shutdown_family") {
+        let hist: Vec<Req> = serde_json::from_value(c["hist"].clone())?;
+        let k = c["k"].as_u64().unwrap_or(0) as usize;
+        return match catch(|| exec_shutdown(&hist, k, std::time::Duration::from_secs(30))) {
+            Err(p) => Ok((true, format!("panic: {p}"))),
+            Ok(bad) => {
+                let mut out = format!("queue order: {:?} + stop request at position {k}\n", hist);
+                for (o, _, d) in &bad {
+                    out.push_str(&format!("FAILED {o}: {d}\n"));
+                }
+                Ok((!bad.is_empty(), out))
+            }
+        };
+    }
     let hist: Vec<Req> = serde_json::from_value(case["hist"].clone())?;
     match catch(|| exec(&hist)) {
         Err(p) => Ok((true, format!("panic: {p}"))),
